@@ -288,6 +288,26 @@ def case_forms(mon, y, m, d, h, mi, us):
                     lambda: Epoch.check_input_date(dt.date()))
                 add("check_input_date-datetime",
                     lambda: Epoch.check_input_date(dt))
+    # the shorter signatures: four values (seconds and minutes omitted) and
+    # five (seconds omitted) mean 0 for what is left out
+    try:
+        want5 = Epoch(y, m, d, h, mi, 0.0).jde()
+        want4 = Epoch(y, m, d, h, 0, 0.0).jde()
+        short = {"five-values": Epoch(y, m, d, h, mi).jde() - want5,
+                 "five-values-tuple": Epoch((y, m, d, h, mi)).jde() - want5,
+                 "five-values-list-name":
+                 Epoch([y, LONG[m - 1], d, h, mi]).jde() - want5,
+                 "five-values-set": via_set(y, m, d, h, mi).jde() - want5,
+                 "four-values": Epoch(y, m, d, h).jde() - want4,
+                 "four-values-tuple": Epoch((y, m, d, h)).jde() - want4}
+        mon.evals += 6
+        mon.check("forms.agree<=1e-9",
+                  all(abs(v) <= 1e-9 for v in short.values()),
+                  lambda: {"civil": [y, m, d, h, mi],
+                           "jde_minus_six_value_form": short})
+    except Exception as ex:
+        mon.dev("forms.agree<=1e-9", {"civil": [y, m, d, h, mi],
+                                      "short_signature_raised": repr(ex)})
     ref = forms["separate"]
     bad = {k: v for k, v in forms.items()
            if not isinstance(v, float) or not isinstance(ref, float)
